@@ -24,6 +24,10 @@ Families
     join      bounded delays; nodes that call start() before they know anybody and are introduced later with
               add_member(), or whose only known member is DEAD for some ticks before the introduction; then one
               member is stopped: same detection / false-death oracles as crash
+    restart   bounded delays; one or two observers go through CrashNode(at, restart_at) with a window that swallows
+              their own probe tick and are start()ed again by the harness (the events start() returns are
+              scheduled); then a different member stops for good: detection oracle on every live observer,
+              restarted ones included; probes sent by restarted nodes after the restart are counted
     phiwire   clusters of >= 3 (healthy or with one member stopped): the suspicion level the protocol itself
               holds for every (observer, member) pair is sampled after every event handled by the observer;
               a decrease with no ping/ack from that member in between refutes
@@ -69,6 +73,8 @@ RULE = (
     "phiwire: healthy or crash cases with N >= 3 in which, after every event handled by a node (and on every sample tick), "
     "phi(now) of the detector that node keeps for each member is compared with the previous sample of the same pair unless "
     "a ping/ack from that member was delivered in between; non-trivial when >= 1 compared pair spans a heartbeat from another member. "
+    "restart: 2-8 nodes, 1-2 observers crashed for 1-3.5 intervals (or 0.2 interval straddling their tick) by CrashNode with "
+    "restart_at and start()ed again 0-0.5 interval after the restart, then a stop of another member as in crash. "
     "churn: loss, delays up to several probe intervals, partitions that heal, pause windows. phi: detector alone, "
     "heartbeat histories (regular, bursty, single, zero-variance, exponential) with grids (fine, geometric to 1e12 s, "
     "consecutive floats) between consecutive heartbeats and after the last. State of every node for every peer "
@@ -84,13 +90,14 @@ ASSUMPTIONS = [
     "SUSPECT counts as 'no longer reported ALIVE' (the statement asks only that ALIVE reports stop)",
     "'reports' means every public view: get_member_state(), alive_members / suspected_members / dead_members and the stats counts; a member must be in exactly the list its get_member_state() names at every sample (one state per observer and member), otherwise one of the views reports a state the other has left",
     "tardy family: 'well below the probe interval' is stretched to one-way delays <= 30 % (round trip <= 60 % of the interval, below 50 % + the smallest suspicion timeout of 25 %): every ack still arrives before the suspicion timer it has to cancel; HEAD declared nobody DEAD in 1800 such runs",
+    "restart family: a node that was down loses its pending probe tick (events to a crashed entity are dropped), so the operator calls start() again after restart_at; the windows are generated so that a tick is always swallowed (a second start() on a node whose loop is still alive starts a second loop on this tree: noted, not judged); deaths OF a restarted member are not counted as false deaths (it really was down)",
     "join family: late members are introduced symmetrically (both sides call add_member at the same instant); a node that pings a peer which does not know it yet cannot be acked and is outside the healthy-network claim",
     "the incarnation of a DEAD report is bounded below by the incarnations of the updates the observer visibly applied; a DEAD -> ALIVE transition is accepted when any incarnation for that member delivered to the observer since the DEAD report is higher than that lower bound",
     "PhiAccrualDetector is built with min_std > 0 (its documented purpose is to prevent a division by zero) and heartbeats are fed in non-decreasing time order",
     "MembershipProtocol offers no public per-member suspicion accessor: phiwire reads node._members[name].detector (read-only; MemberInfo and PhiAccrualDetector.phi/last_heartbeat are public) unless the tree offers get_phi / suspicion_level / phi_of",
     "global `random` state is owned by the case (seeded with case['pyseed']); the library shuffles probe orders with it",
 ]
-MUST_OBSERVE = ["state_samples", "list_and_stats_views_polled", "late_samples_after_bound", "phi_pairs_checked", "dead_reports_tracked", "idle_probe_ticks", "late_acks_seen", "wired_phi_pairs_spanning_other_members_heartbeats"]
+MUST_OBSERVE = ["state_samples", "list_and_stats_views_polled", "late_samples_after_bound", "phi_pairs_checked", "dead_reports_tracked", "idle_probe_ticks", "late_acks_seen", "wired_phi_pairs_spanning_other_members_heartbeats", "probes_by_restarted_nodes_after_restart"]
 
 MSG_TYPES = ("MembershipPing", "MembershipAck", "MembershipIndirectAck")
 
@@ -324,6 +331,44 @@ def gen_phiwire(rng: random.Random, tier: str) -> dict:
     return case
 
 
+def gen_restart(rng: random.Random, tier: str) -> dict:
+    """An observer goes through CrashNode(..., restart_at=...) and is start()ed again, as an operator would do;
+    afterwards a different member stops for good."""
+    case = _params(rng)
+    n = case["n"] = rng.choice([2, 2, 3, 3, 4, 4, 5, 5, 6, 8])
+    pi = case["probe_interval"]
+    case["offsets"] = offs = _offsets(rng, n, pi)
+    case["script"] = _bounded_script(rng, _names(n), pi)
+    restarts = []
+    members = rng.sample(range(n), k=min(n - 1, rng.choice([1, 1, 1, 2])))
+    last = 0.0
+    for r in members:
+        k = rng.randint(1, 2 * n + 4)
+        if rng.random() < 0.7:
+            # window of at least one probe interval: it always contains one of the node's own tick instants
+            crash_at = offs[r] + (k + rng.choice([0.05, 0.2, 0.5, 0.7, 0.95])) * pi
+            restart_at = crash_at + rng.choice([1.0, 1.2, 2.0, 3.5]) * pi
+        else:
+            # short window straddling a tick instant
+            crash_at = offs[r] + (k + 0.9) * pi
+            restart_at = offs[r] + (k + 1.1) * pi
+        again = restart_at + rng.choice([0.0, 0.01, 0.1, 0.5]) * pi  # the operator's start() after the restart
+        restarts.append({"member": r, "crash_at": round(crash_at, 9), "restart_at": round(restart_at, 9), "start_again_at": round(again, 9)})
+        last = max(last, again)
+    case["restarts"] = restarts
+    victim = rng.choice([i for i in range(n) if i not in members])
+    k = rng.randint(1, 2 * n + 6)
+    frac = rng.choice([0.0, 0.05, 0.5, 0.95, round(rng.random(), 6)])
+    case["stop"] = {
+        "mode": rng.choice(["crash", "crash", "isolate"]),
+        "member": victim,
+        "at": round(last + (k + frac) * pi, 9),
+        "phase": "after-restart",
+    }
+    case["rounds"] = None
+    return case
+
+
 def gen_join(rng: random.Random, tier: str) -> dict:
     """Memberships in which some node has nobody to probe at some tick, then a stop to be detected."""
     case = _params(rng)
@@ -502,6 +547,7 @@ class _Monitor:
         self.excluded = {stopped} if stopped is not None else set()  # stopped members: no accuracy claim about them
         if case.get("decoy"):
             self.excluded.add(case["decoy"]["member"])
+        self.was_down = {r["member"] for r in case.get("restarts") or []}  # not continuously live: deaths OF them are not false
         self.bound_frac = case.get("bound_frac", BOUND_FRAC)
         self.prev_probes = [nd.stats.probes_sent for nd in nodes]
         self.check_phi = bool(case.get("check_phi"))
@@ -824,8 +870,8 @@ class _Monitor:
         if xi >= self.n:
             return  # the scripted peer is not a library member
         st = self.case.get("stop")
-        if yi in self.excluded or xi in self.excluded:
-            return  # views of / by a stopped member are the other clause
+        if yi in self.excluded or xi in self.excluded or xi in self.was_down:
+            return  # views of / by a stopped member are the other clause; a restarted member really was down
         if st is not None:
             ctx = "one-other-member-stopped"
         else:
@@ -873,8 +919,11 @@ def _run_cluster(case: dict, *, check_false_death: bool, check_detection: bool) 
 
     fs = None
     decoy = case.get("decoy")
-    if (stop is not None and stop["mode"] == "crash") or case.get("pauses") or decoy:
+    restarts = case.get("restarts") or []
+    if (stop is not None and stop["mode"] == "crash") or case.get("pauses") or decoy or restarts:
         fs = FaultSchedule()
+        for r in restarts:
+            fs.add(CrashNode(nodes[r["member"]].name, at=r["crash_at"], restart_at=r["restart_at"]))
         if decoy:
             fs.add(CrashNode(nodes[decoy["member"]].name, at=decoy["at"]))
         if stop is not None and stop["mode"] == "crash":
@@ -925,6 +974,14 @@ def _run_cluster(case: dict, *, check_false_death: bool, check_detection: bool) 
                 nodes[b].add_member(nodes[a])
 
         sim.schedule(Event.once(time=Instant.from_seconds(jn["at"]), event_type=f"introduce{j}", fn=introduce, daemon=True))
+    probes_at_restart: dict = {}
+    for r in restarts:
+        # the restarted node lost its own probe tick while it was down: the operator calls start() again
+        def start_again(e, nd=nodes[r["member"]], idx=r["member"]):
+            probes_at_restart[idx] = nd.stats.probes_sent
+            return nd.start()
+
+        sim.schedule(Event.once(time=Instant.from_seconds(r["start_again_at"]), event_type=f"start-again:{r['member']}", fn=start_again, daemon=True))
     handles: dict = {}
     for i, p in enumerate(case.get("partitions", []) or []):
         ga = [nodes[j] for j in p["a"]]
@@ -981,6 +1038,15 @@ def _run_cluster(case: dict, *, check_false_death: bool, check_detection: bool) 
     if mon.check_phi:
         res.count("wired_phi_pairs_checked", mon.phi_pairs)
         res.count("wired_phi_pairs_spanning_other_members_heartbeats", mon.phi_pairs_foreign)
+    for r in restarts:
+        idx = r["member"]
+        res.count("observer_restarts")
+        if idx in probes_at_restart:
+            sent = nodes[idx].stats.probes_sent - probes_at_restart[idx]
+            res.count("probes_by_restarted_nodes_after_restart", sent)
+            if sent == 0 and end_s - r["start_again_at"] > 3 * pi and not res.violations:
+                res.inconclusive = f"{nodes[idx].name} was started again after its restart but sent no probe in the rest of the run"
+                res.count("restarted_nodes_that_never_probed_again")
     if case.get("membership") is not None:
         res.count("idle_probe_ticks", sum(mon.idle_ticks))
         res.count("late_introductions", sum(len(jn["pairs"]) for jn in case["membership"]["joins"]))
@@ -1053,6 +1119,8 @@ def _detection_oracle(case, mon: _Monitor, nodes, res: Result, B: int, end_s: fl
                 )
             if list_only:
                 shape += "/reported-by-alive_members-while-get_member_state-had-left-ALIVE"
+            if yi in mon.was_down:
+                shape += "/observer-went-through-crash-restart-and-start()-again"
             res.count("views_still_alive_at_horizon" if still else "views_detected_late_after_bound")
             key = ("detect", shape)
             if key not in mon.flagged:
@@ -1105,6 +1173,10 @@ def run_phiwire(case: dict) -> Result:
     res = _run_cluster(case, check_false_death=True, check_detection=case.get("stop") is not None)
     res.nontrivial = res.obs.get("wired_phi_pairs_spanning_other_members_heartbeats", 0) > 0
     return res
+
+
+def run_restart(case: dict) -> Result:
+    return _run_cluster(case, check_false_death=True, check_detection=True)
 
 
 def run_join(case: dict) -> Result:
@@ -1265,10 +1337,11 @@ FAMILIES = {
     "tardy": Family("tardy", gen_tardy, run_tardy, case_timeout=60.0),
     "join": Family("join", gen_join, run_join, case_timeout=60.0),
     "phiwire": Family("phiwire", gen_phiwire, run_phiwire, case_timeout=90.0),
+    "restart": Family("restart", gen_restart, run_restart, case_timeout=60.0),
     "phi": Family("phi", gen_phi, run_phi, case_timeout=30.0),
 }
 
 BUDGET = {
-    "quick": {"healthy": 500, "crash": 500, "gossip": 300, "churn": 200, "tardy": 300, "join": 300, "phiwire": 200, "phi": 1500},
-    "thorough": {"healthy": 12000, "crash": 12000, "gossip": 6000, "churn": 4000, "tardy": 8000, "join": 8000, "phiwire": 5000, "phi": 40000},
+    "quick": {"healthy": 500, "crash": 500, "gossip": 300, "churn": 200, "tardy": 300, "join": 300, "phiwire": 200, "restart": 300, "phi": 1500},
+    "thorough": {"healthy": 12000, "crash": 12000, "gossip": 6000, "churn": 4000, "tardy": 8000, "join": 8000, "phiwire": 5000, "restart": 8000, "phi": 40000},
 }
